@@ -57,6 +57,10 @@ class Holder(SymVal):
     def __init__(self, **kw): self.kw = kw
     def sym_getattr(self, it, name):
         if name in self.kw: return self.kw[name]
+        if self.kw.get('_cls') is not None:          # the record stands for an instance of a real class: follow its private helpers
+            from pyvc.interp import private_helper
+            ok, v = private_helper(it, self.kw['_cls'], name, self)
+            if ok: return v
         raise Outside(f'attribute {name}')
     def sym_getitem(self, it, k):
         if k in self.kw: return self.kw[k]
@@ -79,7 +83,7 @@ def adz_apply_obligations(ctx, prefix):
                 tb = BranchRec('target', old)
                 tab = TabRec()
                 tgt = Holder(adds=groups, branch=tb, node=node)
-                selfm = Holder(tableau=tab, rule=Holder(ticking=ticking))
+                selfm = Holder(tableau=tab, rule=Holder(ticking=ticking), _cls=H.AdzHelper)
                 def run(path):
                     it = Interp(path, World())
                     return it.call_source(fi, func, H.AdzHelper, [selfm, tgt], {})
